@@ -355,57 +355,7 @@ func c07Snapshots(c *Ctx) {
 	}
 	c.Floor("C07.iv-records-immutable", 3)
 
-	// records handed to the cache by its own sources are fresh: the decode target is a new local value, not memory
-	// kept from an earlier call (decoding into a retained slice rewrites, in place, records already published)
-	nDec := 0
-	for _, f := range c.Funcs(pcachePkg) {
-		if f.SSA.Signature.Recv() == nil || (f.SSA.Name() != "Fetch" && f.SSA.Name() != "FetchAll") {
-			continue
-		}
-		recv := f.SSA.Params[0]
-		for _, cs := range c.Calls(f.SSA, Or(Call("encoding/json.Unmarshal"), Call("encoding/json.Decoder).Decode"))) {
-			nDec++
-			tgt := cs.X.Args[len(cs.X.Args)-1]
-			why := ""
-			// through the interface conversion, the target must be the address of a local
-			var al *ssa.Alloc
-			if v, ok := tgt.V.(ssa.Value); ok {
-				al, _ = unwrapV(v).(*ssa.Alloc)
-			}
-			if al == nil && tgt.Cell != nil {
-				al = tgt.Cell
-			}
-			if al == nil {
-				why = "the decode target is not a local variable: " + abbreviate(tgt.String())
-			} else {
-				stores, esc := c.xb.storesTo(al, map[ssa.Value]bool{})
-				_ = esc
-				for _, st := range stores {
-					v := strip(c.E(st.Val))
-					if v.Op == "nil" || (v.Op == "const" && strings.HasPrefix(v.Name, "zero")) {
-						continue
-					}
-					if v.Contains(func(y *X) bool { return y.V == ssa.Value(recv) }) {
-						why = "the decode target starts from state kept in the source (" + abbreviate(v.String()) + ")"
-					}
-				}
-			}
-			// and what was decoded is not retained in the source
-			instrs(f.SSA, func(in ssa.Instruction) {
-				st, ok := in.(*ssa.Store)
-				if !ok || al == nil {
-					return
-				}
-				a := c.E(st.Addr)
-				if a.Op == "field" && strip(a.Args[0]).V == ssa.Value(recv) {
-					if v := c.E(st.Val); v.Cell == al || v.Contains(func(y *X) bool { return y.Cell == al || y.V == ssa.Value(al) }) {
-						why = "the decoded records are retained in the source (" + a.Name + ")"
-					}
-				}
-			})
-			c.Check(why == "", "C07.iv-sources-return-fresh", f.Name+" › decode target", cs.In.Pos(), "records are decoded into a new local value and not retained", why+": a later fetch decodes into records readers already hold (published records are rewritten in place, without synchronisation)")
-		}
-	}
+	sourcesDecodeFresh(c, "C07.iv-sources-return-fresh")
 	c.Floor("C07.iv-sources-return-fresh", 2)
 }
 
@@ -691,4 +641,65 @@ func freshMapMisuse(c *Ctx, mm *ssa.MakeMap, pubPoint ssa.Instruction, allowedCa
 		}
 	})
 	return bad
+}
+
+// sourcesDecodeFresh: records handed to the cache by its own sources are
+// fresh — the decode target is a new local value per record list (or per
+// element), not memory kept from an earlier call or an earlier iteration.
+// Shared by C07 (published records are never rewritten) and C17 (a record is
+// expanded from its own fields only).
+func sourcesDecodeFresh(c *Ctx, rule string) {
+	// records handed to the cache by its own sources are fresh: the decode target is a new local value, not memory
+	// kept from an earlier call (decoding into a retained slice rewrites, in place, records already published)
+	nDec := 0
+	for _, f := range c.Funcs(pcachePkg) {
+		if f.SSA.Signature.Recv() == nil || (f.SSA.Name() != "Fetch" && f.SSA.Name() != "FetchAll") {
+			continue
+		}
+		recv := f.SSA.Params[0]
+		for _, cs := range c.Calls(f.SSA, Or(Call("encoding/json.Unmarshal"), Call("encoding/json.Decoder).Decode"))) {
+			nDec++
+			tgt := cs.X.Args[len(cs.X.Args)-1]
+			why := ""
+			// through the interface conversion, the target must be the address of a local
+			var al *ssa.Alloc
+			if v, ok := tgt.V.(ssa.Value); ok {
+				al, _ = unwrapV(v).(*ssa.Alloc)
+			}
+			if al == nil && tgt.Cell != nil {
+				al = tgt.Cell
+			}
+			if al == nil {
+				why = "the decode target is not a local variable: " + abbreviate(tgt.String())
+			} else if ReachableFromSucc(cs.In.Block(), cs.In.Block()) && !ReachableFromSucc(al.Block(), al.Block()) {
+				why = "the decode target is one variable reused for every element of the list: fields absent from a later element keep the previous element's values"
+			} else {
+				stores, esc := c.xb.storesTo(al, map[ssa.Value]bool{})
+				_ = esc
+				for _, st := range stores {
+					v := strip(c.E(st.Val))
+					if v.Op == "nil" || (v.Op == "const" && strings.HasPrefix(v.Name, "zero")) {
+						continue
+					}
+					if v.Contains(func(y *X) bool { return y.V == ssa.Value(recv) }) {
+						why = "the decode target starts from state kept in the source (" + abbreviate(v.String()) + ")"
+					}
+				}
+			}
+			// and what was decoded is not retained in the source
+			instrs(f.SSA, func(in ssa.Instruction) {
+				st, ok := in.(*ssa.Store)
+				if !ok || al == nil {
+					return
+				}
+				a := c.E(st.Addr)
+				if a.Op == "field" && strip(a.Args[0]).V == ssa.Value(recv) {
+					if v := c.E(st.Val); v.Cell == al || v.Contains(func(y *X) bool { return y.Cell == al || y.V == ssa.Value(al) }) {
+						why = "the decoded records are retained in the source (" + a.Name + ")"
+					}
+				}
+			})
+			c.Check(why == "", rule, f.Name+" › decode target", cs.In.Pos(), "records are decoded into a new local value and not retained", why+": a later fetch decodes into records readers already hold (published records are rewritten in place, without synchronisation)")
+		}
+	}
 }
